@@ -28,7 +28,7 @@ contract('parso.parser.BaseParser.__init__',
          params={'self': 'ref:BaseParser', 'pgen_grammar': 'ref', 'start_nonterminal': 'str', 'error_recovery': 'bool'},
          ensures=['self._error_recovery == error_recovery', 'self._start_nonterminal == start_nonterminal',
                   'self._pgen_grammar is pgen_grammar'],
-         modifies=['_error_recovery', '_start_nonterminal', '_pgen_grammar'], props=['C07'])
+         modifies=['self._error_recovery', 'self._start_nonterminal', 'self._pgen_grammar'], props=['C07'])
 
 # ---- C06: token -> transition label
 class_fields('PythonTokenTypes', value='ref:TokenType')
